@@ -19,18 +19,18 @@ const maxLen = "1099511627776" // 2^40
 
 // VC is the per-function verification-condition builder.
 type VC struct {
-	eng  *Engine
-	sc   *Script
-	st   *State // current state while executing
-	subs map[string]bool
-	strs map[string]Term
-	tags map[string]int
+	eng        *Engine
+	sc         *Script
+	st         *State // current state while executing
+	subs       map[string]bool
+	strs       map[string]Term
+	tags       map[string]int
 	preludeLen int
-	axLines map[int]axLine
-	na0     Term
-	recDefs map[string]*recDef
-	regDefs map[Term]Term // region version -> the term it was defined as
-	nextEpoch int
+	axLines    map[int]axLine
+	na0        Term
+	recDefs    map[string]*recDef
+	regDefs    map[Term]Term // region version -> the term it was defined as
+	nextEpoch  int
 }
 
 func newVC(eng *Engine) *VC {
